@@ -2,7 +2,7 @@
 """prints the markdown table of /verif/seeded (for DESIGN.md 0.5)"""
 import json, os, glob
 rows = []
-for d in sorted(glob.glob("/verif/seeded/*")):
+for d in sorted(glob.glob("/verif/seeded/*/")):
     m = json.load(open(os.path.join(d, "meta.json")))
     checks = "; ".join("%s: %s" % (k, v) for k, v in m["checks_run"].items())
     rows.append("| `%s` | %s | %s | %s |" % (m["id"], m["breaks"], m["needs_to_manifest"].replace("|", "/"), checks.replace("|", "/")))
